@@ -134,18 +134,43 @@ def check_rejects_invalid(ctx, rep, setter):
             if pred(k):
                 return v
         return None
-    is_str = lambda k: k[0] == "isinstance" and k[1] == akey and "str" in k[2]
-    is_dict = lambda k: k[0] == "isinstance" and k[1] == akey and "dict" in k[2]
+    import re as _re
+
+    def _types(k):
+        return set(_re.findall(r"builtins\.(\w+)", str(k[2]))) if k[0] == "isinstance" and k[1] == akey else None
+    _is_str = lambda k: _types(k) == {"str"}
+    _is_dict = lambda k: _types(k) == {"dict"}
+    _is_either = lambda k: _types(k) == {"str", "dict"}
     has_q = lambda k: k[0] == "in" and k[1] == ("con", repr("?")) and k[2] == akey
     in_presets = lambda k: k[0] == "in" and k[1] == akey and isinstance(k[2], tuple) and k[2][0] == "folded"
-    seen_type_tests = any(val(s_, is_str) is not None or val(s_, is_dict) is not None for s_, _ in fr.returns)
+    def str_fact(s_):
+        # isinstance(arg, str), directly or through isinstance(arg, (str, dict)) together with the dict test
+        v, e, d = val(s_, _is_str), val(s_, _is_either), val(s_, _is_dict)
+        if v is not None:
+            return v
+        if e is False or d is True:
+            return False
+        if e is True and d is False:
+            return True
+        return None
+
+    def dict_fact(s_):
+        v, e, t = val(s_, _is_dict), val(s_, _is_either), val(s_, _is_str)
+        if v is not None:
+            return v
+        if e is False or t is True:
+            return False
+        if e is True and t is False:
+            return True
+        return None
+    seen_type_tests = any(str_fact(s_) is not None or dict_fact(s_) is not None for s_, _ in fr.returns)
     if not seen_type_tests:
         rep.note("the setter does not classify its argument with isinstance(): completeness of the rejection not decided")
         return
     scen = {
-        "a dict without the '?' key": lambda s_: val(s_, is_dict) is False or val(s_, has_q) is True or val(s_, is_str) is True,
-        "an argument that is neither a str nor a dict": lambda s_: val(s_, is_str) is True or val(s_, is_dict) is True,
-        "a str that is not a preset name": lambda s_: val(s_, is_str) is False or val(s_, in_presets) is True,
+        "a dict without the '?' key": lambda s_: dict_fact(s_) is False or val(s_, has_q) is True or str_fact(s_) is True,
+        "an argument that is neither a str nor a dict": lambda s_: str_fact(s_) is True or dict_fact(s_) is True or val(s_, _is_either) is True,
+        "a str that is not a preset name": lambda s_: str_fact(s_) is False or val(s_, in_presets) is True,
     }
     rets = [r for r in own_nodes(setter.node) if isinstance(r, ast.Return)]
     for what, contradicted in scen.items():
@@ -156,6 +181,53 @@ def check_rejects_invalid(ctx, rep, setter):
             w = "the setter can return normally for %s (path facts: %s): the invalid input is accepted instead of raising ValueError" % (what, facts or "none")
         rep.ob("G3", not bad, setter.node, setter, construct="rejection of %s" % what, how="no normal-return path is compatible with it (%d path(s))" % len(fr.returns),
                witness=w, nontrivial=True, key="rejects/%s" % what.split()[1])
+
+
+def check_entry_validation(ctx, rep, setter):
+    """G3c: every entry of a dict argument is validated.  One symbolic iteration of the loop over <argument>.items() (in the
+    setter or in a helper it calls) is summarised per path; each path that goes on to the next entry must carry the facts
+    `isinstance(value, int)` and `value >= 0` for this entry's value -- a path that skips them (an entry taken on trust) lets
+    an invalid table through, against 'an invalid update raises ValueError and leaves everything as before'."""
+    from sa.sym import Engine, Hooks, Unk
+    from sa.lin import Lin as _Lin, ge as _ge
+    loops = []
+
+    class H(Hooks):
+        def on_loop(self, eng, fr, node, syms, entered, back, exits, breaks):
+            it = getattr(node, "iter", None)
+            if isinstance(it, ast.Call) and isinstance(it.func, ast.Attribute) and it.func.attr == "items" and not it.args \
+                    and isinstance(node.target, ast.Tuple) and len(node.target.elts) == 2 and isinstance(node.target.elts[1], ast.Name):
+                vals = {vkey_(b.env.get(node.target.elts[1].id)) for b in entered}
+                loops.append((fr.func, node, entered, back + breaks))
+    from sa.sym import vkey as vkey_
+    arg = Unk(("arg",))
+    Engine(ctx, H()).run_function(setter, {setter.posparams[0]: arg})
+    mine = []
+    for f, node, entered, outs in loops:
+        if not entered:
+            continue
+        v = entered[0].env.get(node.target.elts[1].id)
+        k = vkey_(v) if v is not None else None
+        # the loop ranges over the argument's own items
+        if k and "('arg',)" in repr(k) and "'items'" in repr(k):
+            mine.append((f, node, v, outs))
+    if not mine:
+        rep.note("no loop over <argument>.items() found in the setter: per-entry validation not decided")
+        return
+    for f, node, v, outs in mine:
+        bad = []
+        for b in outs:
+            is_int = any(k_[0] == "isinstance" and k_[1] == vkey_(v) and "int" in str(k_[2]) and val_ is True for k_, val_ in b.atoms.items())
+            nonneg = isinstance(v, Unk) and b.entails(_ge(_Lin.var(v.term), 0))
+            if not (is_int and nonneg):
+                bad.append((is_int, nonneg))
+        w = None
+        if bad:
+            w = "%d of %d path(s) through one entry go on without %s: such an entry (e.g. a float, a negative or a str capacity) is installed " \
+                "instead of raising ValueError" % (len(bad), len(outs), "the int test" if not bad[0][0] else "the >= 0 test")
+        rep.ob("G3", not bad, node, f, construct="validation of every entry's value (%d path(s) per entry)" % len(outs),
+               how="isinstance(value, int) and value >= 0 are facts on every path that continues with the next entry", witness=w, nontrivial=True,
+               key="entry-values/%s" % ("ok" if not bad else "skipped"))
 
 
 def run(ctx, rep):
@@ -271,6 +343,7 @@ def run(ctx, rep):
 
     # ---- G3 (completeness of the rejection): every invalid input is rejected on every path
     check_rejects_invalid(ctx, rep, setter)
+    check_entry_validation(ctx, rep, setter)
 
     # ---- G6
     plain, selfkeyed = memo_readers(ctx, eff, table_vars)
